@@ -36,6 +36,9 @@ func (s *recStats) HandleRPC(ctx context.Context, st stats.RPCStats) {
 	if !tagged {
 		t = "(untagged-ctx)"
 	}
+	if st.IsClient() {
+		t += "(client-side!)"
+	}
 	switch e := st.(type) {
 	case *stats.InHeader:
 		s.events = append(s.events, "inHeader"+t)
@@ -79,20 +82,33 @@ type recInterceptors struct {
 	mu     sync.Mutex
 	unary  []string
 	stream []string
+	// what the interceptor returns instead of the handler's result (nil = pass through)
+	Transform    func(resp interface{}, err error) (interface{}, error)
+	TransformErr func(err error) error
 }
 
 func (ri *recInterceptors) Unary(ctx context.Context, req interface{}, info *grpc.UnaryServerInfo, handler grpc.UnaryHandler) (interface{}, error) {
 	ri.mu.Lock()
 	ri.unary = append(ri.unary, info.FullMethod)
+	tr := ri.Transform
 	ri.mu.Unlock()
-	return handler(ctx, req)
+	resp, err := handler(ctx, req)
+	if tr != nil {
+		return tr(resp, err)
+	}
+	return resp, err
 }
 
 func (ri *recInterceptors) Stream(srv interface{}, ss grpc.ServerStream, info *grpc.StreamServerInfo, handler grpc.StreamHandler) error {
 	ri.mu.Lock()
 	ri.stream = append(ri.stream, fmt.Sprintf("%s[%v,%v]", info.FullMethod, info.IsClientStream, info.IsServerStream))
+	tr := ri.TransformErr
 	ri.mu.Unlock()
-	return handler(srv, ss)
+	err := handler(srv, ss)
+	if tr != nil {
+		return tr(err)
+	}
+	return err
 }
 
 func (ri *recInterceptors) Reset() {
